@@ -465,6 +465,29 @@ def rule_coordination_loop(ctx):
 
 
 
+
+def rule_rejoin_revalidates(ctx):
+    R = "join-sync"
+    fi = ctx.fn(f"{GC}._do_rejoin_group")
+    c = ctx.cfg(fi)
+    pj = [n for n in c.nodes if n.kind == "await" and isinstance(n.ast, ast.Await) and isinstance(n.ast.value, ast.Call) and call_attr(n.ast.value) == "perform_group_join"]
+    oj = [n for n in c.nodes if n.kind == "await" and isinstance(n.ast, ast.Await) and isinstance(n.ast.value, ast.Call) and call_attr(n.ast.value) == "_on_join_complete"]
+    ctx.anchor(len(pj) == 1 and len(oj) == 1, "await perform_group_join() / await _on_join_complete(...) in _do_rejoin_group")
+    sub = fi.params()[1]
+    ts = [t for t in c.nodes if t.kind == "test" and unparse(t.ast) == f"{sub}.active" and c.dominates(pj[0], t) and c.dominates(t, oj[0])]
+    ok = bool(ts)
+    if ok:
+        t = ts[-1]
+        # the assignment of the finished join is applied only if the subscription it was computed for is still the current one, tested
+        # AFTER the join round-trip (the application may have re-subscribed meanwhile) with no suspension before it is applied
+        ok = oj[0] not in c.reachable([m for m, l in t.succ if l == "F"], exc=False, include_src=True)
+        nos, _w = ctx.no_suspension_between(fi, t, oj[0])
+        ok = ok and nos
+    ctx.ob(R, fi, oj[0] if oj else fi.node, ok, "the assignment returned by the join is applied (_on_join_complete) without the subscription having been re-validated after the JoinGroup/SyncGroup "
+                                                "round-trip: an assignment computed for a superseded subscription is installed (assertion failure or stale ownership, no heartbeat)",
+           text="subscription-revalidated-after-join")
+
+
 def rule_snapshot(ctx):
     R = "snapshot"
     ctx.rep.rule(R, "a stable member does not disturb the group itself: the metadata listener requests a rejoin iff the recorded snapshot "
@@ -528,5 +551,6 @@ def run(ctx):
     rule_heartbeat(ctx)
     rule_coordination_loop(ctx)
     rule_snapshot(ctx)
+    rule_rejoin_revalidates(ctx)
     rep.nd("convergence / 'no further rebalance once quiet' (liveness over fault sequences)")
     rep.nd("coverage of every partition by the union of assignments (depends on the assignors, C14)")
